@@ -644,4 +644,158 @@ theorem walk_server_cred' (x sv rest : Bytes) (l : Loop) (p : Nat) (hl : l.s = .
         (by simp only [List.length_cons] at hp; omega)
       simpa using this
 
+/-! ## assembling the walk over `render p` -/
+
+def portSeg (p : UParts) : Bytes := match p.port with | some n => 58 :: decimal n | none => []
+def credText (c : Bytes × Bytes) : Bytes := c.1 ++ 58 :: c.2
+def svPlain (p : UParts) : Bytes := p.host.render ++ portSeg p
+def server (p : UParts) : Bytes := (match p.cred with | some c => credText c ++ [64] | none => []) ++ svPlain p
+
+theorem render_eq (p : UParts) :
+    render p = p.scheme ++ 58 :: 47 :: 47 :: (server p ++ tailBytes p.path p.query p.fragment) := by
+  unfold render server svPlain portSeg tailBytes seg credText
+  cases p.cred <;> cases p.port <;> cases p.query <;> cases p.fragment <;> simp [List.append_assoc]
+
+/-- the seven conjuncts of `wf` -/
+theorem wf_parts (p : UParts) (h : wf p = true) :
+    (match p.scheme with | c :: cs => isAlpha c && cs.all isSchemeChar | [] => false) = true ∧
+    (match p.cred with
+      | some (u, k) => u.all (fun c => isUserinfoChar c && c.toNat != 58) && k.all isUserinfoChar
+      | none => true) = true ∧
+    (match p.host with
+      | .name h => !h.isEmpty && h.all isHostChar
+      | .v6 h => !h.isEmpty && h.all (fun c => isHex c || c.toNat = 58 || c.toNat = 46)) = true ∧
+    (match p.port with | some n => decide (1 ≤ n ∧ n ≤ 65535) | none => true) = true ∧
+    (match p.path with | [] => true | c :: cs => c.toNat = 47 && cs.all isUrlChar) = true ∧
+    (match p.query with | some q => !q.isEmpty && q.all (fun c => isUrlChar c || c.toNat = 63) | none => true) = true ∧
+    (match p.fragment with | some f => !f.isEmpty && f.all (fun c => isUrlChar c || c.toNat = 63) | none => true) = true := by
+  unfold wf at h
+  simp only [Bool.and_eq_true] at h
+  exact ⟨h.1.1.1.1.1.1, h.1.1.1.1.1.2, h.1.1.1.1.2, h.1.1.1.2, h.1.1.2, h.1.2, h.2⟩
+
+theorem isSrv_of_userinfo {c : UInt8} (h : isUserinfoCharN c.toNat = true) : isSrv c = true := by
+  simp [isSrv, h]
+
+theorem svPlain_ne_nil (p : UParts) (h : wf p = true) : svPlain p ≠ [] := by
+  have hh := (wf_parts p h).2.2.1
+  unfold svPlain HostForm.render
+  cases hp : p.host with
+  | name x =>
+    rw [hp] at hh
+    cases x with
+    | nil => simp at hh
+    | cons a as => simp
+  | v6 x => simp
+
+theorem portSeg_srv (p : UParts) : (portSeg p).all isSrv = true := by
+  unfold portSeg
+  cases p.port with
+  | none => rfl
+  | some n =>
+    simp only [List.all_cons, Bool.and_eq_true, List.all_eq_true]
+    refine ⟨by decide, fun c hc => ?_⟩
+    exact isSrv_of_userinfo (num_is_userinfo _ (toNat_lt256 c) (decimal_digits n c hc))
+
+theorem svPlain_srv (p : UParts) (h : wf p = true) : (svPlain p).all isSrv = true := by
+  have hh := (wf_parts p h).2.2.1
+  unfold svPlain
+  rw [List.all_append, portSeg_srv, Bool.and_true]
+  unfold HostForm.render
+  cases hp : p.host with
+  | name x =>
+    rw [hp] at hh
+    simp only [Bool.and_eq_true, List.all_eq_true] at hh ⊢
+    intro c hc
+    exact isSrv_of_userinfo (host_is_userinfo _ (toNat_lt256 c) (by simpa [isHostChar] using hh.2 c hc))
+  | v6 x =>
+    rw [hp] at hh
+    simp only [Bool.and_eq_true, List.all_eq_true] at hh
+    simp only [List.cons_append, List.nil_append, List.all_cons, List.all_append, List.all_nil, Bool.and_true, Bool.and_eq_true,
+      List.all_eq_true]
+    refine ⟨by decide, fun c hc => ?_, by decide⟩
+    have := hh.2 c hc
+    exact isSrv_of_userinfo (v6_is_userinfo _ (toNat_lt256 c) (by simpa [isHex] using this))
+
+theorem credText_srv (c : Bytes × Bytes)
+    (h : (c.1.all (fun x => isUserinfoChar x && x.toNat != 58) && c.2.all isUserinfoChar) = true) :
+    (credText c).all isSrv = true ∧ credText c ≠ [] := by
+  simp only [Bool.and_eq_true, List.all_eq_true] at h
+  unfold credText
+  refine ⟨?_, by simp⟩
+  simp only [List.all_append, List.all_cons, Bool.and_eq_true, List.all_eq_true]
+  refine ⟨fun x hx => ?_, by decide, fun x hx => ?_⟩
+  · exact isSrv_of_userinfo (by simpa [isUserinfoChar] using (h.1 x hx).1)
+  · exact isSrv_of_userinfo (by simpa [isUserinfoChar] using h.2 x hx)
+
+def U2 (p : UParts) : Url :=
+  (({} : Url).put .schema ⟨0, p.scheme.length⟩).put .host ⟨p.scheme.length + 3, (server p).length⟩
+
+def U3 (p : UParts) : Url :=
+  tailUrl (U2 p) (p.scheme.length + 3 + (server p).length) p.path p.query p.fragment
+
+theorem pathOK_of_wf (p : UParts) (h : wf p = true) : pathOK p.path = true := by
+  have hh := (wf_parts p h).2.2.2.2.1
+  unfold pathOK
+  cases hp : p.path with
+  | nil => rfl
+  | cons c cs => rw [hp] at hh; simpa using hh
+
+theorem optOK_of (q : Option Bytes)
+    (hh : (match q with | some q => !q.isEmpty && q.all (fun c => isUrlChar c || c.toNat = 63) | none => true) = true) :
+    optOK q = true := by
+  unfold optOK
+  cases q with
+  | none => rfl
+  | some x =>
+    simp only [Bool.and_eq_true, List.all_eq_true] at hh ⊢
+    refine ⟨hh.1, fun c hc => ?_⟩
+    have := hh.2 c hc
+    simpa [isQueryChar, isUrlChar] using this
+
+/-- the character loop of `http_parser_parse_url` on a well-formed URI -/
+theorem urlLoop_render (p : UParts) (h : wf p = true)
+    (hshape : ¬ (p.path = [] ∧ p.query = none ∧ p.fragment ≠ none)) (hlen : (render p).length < 65536) :
+    ∃ s o, urlLoop {} 0 (render p) = some { s := s, oldUf := o, foundAt := p.cred.isSome, u := U3 p } := by
+  have hw := wf_parts p h
+  rw [render_eq] at hlen ⊢
+  cases hsch : p.scheme with
+  | nil => rw [hsch] at hw; simp at hw
+  | cons c0 cs =>
+    have h1 := hw.1
+    rw [hsch] at h1 hlen
+    simp only [Bool.and_eq_true] at h1
+    simp only [List.cons_append, List.length_cons, List.length_append] at hlen
+    rw [List.cons_append, walk_scheme c0 cs _ h1.1 h1.2 (by omega)]
+    have hp3 : (c0 :: cs).length + 3 = cs.length + 1 + 3 := by simp
+    cases hc : p.cred with
+    | none =>
+      have hsv : server p = svPlain p := by unfold server; rw [hc]; simp
+      rw [hsv] at hlen ⊢
+      rw [walk_server_plain' (svPlain p) _ _ _ rfl rfl (svPlain_ne_nil p h) (svPlain_srv p h) (by omega)]
+      have := walk_tail ⟨.server, some .host, false, (({} : Url).put .schema ⟨0, cs.length + 1⟩).put .host ⟨cs.length + 1 + 3, (svPlain p).length⟩⟩
+        (cs.length + 1 + 3 + (svPlain p).length) p.path p.query p.fragment rfl rfl
+        (pathOK_of_wf p h) (optOK_of _ hw.2.2.2.2.2.1) (optOK_of _ hw.2.2.2.2.2.2) hshape (by omega)
+      obtain ⟨s, o, hr⟩ := this
+      refine ⟨s, o, ?_⟩
+      rw [hr]
+      simp only [U3, U2, hsch, hsv, List.length_cons, Option.isSome_none]
+    | some c =>
+      have h2 := hw.2.1
+      rw [hc] at h2
+      have hct := credText_srv c (by simpa using h2)
+      have hsv : server p = credText c ++ 64 :: svPlain p := by unfold server; rw [hc]; simp
+      rw [hsv] at hlen ⊢
+      simp only [List.length_append, List.length_cons] at hlen
+      rw [List.append_assoc, List.cons_append,
+        walk_server_cred' (credText c) (svPlain p) _ _ _ rfl rfl hct.2 hct.1 (svPlain_ne_nil p h) (svPlain_srv p h) (by omega)]
+      have := walk_tail ⟨.server, some .host, true, (({} : Url).put .schema ⟨0, cs.length + 1⟩).put .host ⟨cs.length + 1 + 3, (credText c).length + 1 + (svPlain p).length⟩⟩
+        (cs.length + 1 + 3 + ((credText c).length + 1 + (svPlain p).length)) p.path p.query p.fragment rfl rfl
+        (pathOK_of_wf p h) (optOK_of _ hw.2.2.2.2.2.1) (optOK_of _ hw.2.2.2.2.2.2) hshape (by omega)
+      obtain ⟨s, o, hr⟩ := this
+      refine ⟨s, o, ?_⟩
+      rw [hr]
+      have hl : (server p).length = (credText c).length + 1 + (svPlain p).length := by
+        rw [hsv]; simp only [List.length_append, List.length_cons]; omega
+      simp only [U3, U2, hsch, hl, List.length_cons, Option.isSome_some]
+
 end KsiVerif.Uri
